@@ -363,6 +363,19 @@ def _(c):
     return _sup(c, lambda c, m, z: [rsome.norm(z, 2) <= c.fresh_real("r")])
 
 
+@conic("set-three-balls")
+def _(c):
+    # three second-order cones in ONE set (the offset bookkeeping of the dual's cone list matters from the third cone on)
+    return _sup(c, lambda c, m, z: [rsome.norm(z, 2) <= c.fresh_real("r1"), rsome.norm(z - np.array([1.0, 0.0]), 2) <= c.fresh_real("r2"),
+                                    rsome.norm(z[::-1] + np.array([0.0, 2.0]), 2) <= c.fresh_real("r3"), z[0] <= c.fresh_real("u")])
+
+
+@conic("set-four-cones-mixed")
+def _(c):
+    return _sup(c, lambda c, m, z: [rsome.sumsqr(z) <= c.fresh_real("r1"), rsome.square(z - 1) <= c.fresh_real("r2"),
+                                    rsome.norm(2 * z, 2) <= c.fresh_real("r3")])
+
+
 @conic("set-box-ball")
 def _(c):
     return _sup(c, lambda c, m, z: [z <= c.fresh_real("u"), z >= c.fresh_real("l"), rsome.norm(z - sym_array(c, (2,), "z0"), 2) <= c.fresh_real("r")])
